@@ -1,10 +1,11 @@
 package main
 
 import (
-	"go/token"
 	"fmt"
+	"go/token"
 	"go/types"
 	"sort"
+	"strings"
 
 	"golang.org/x/tools/go/ssa"
 )
@@ -40,6 +41,19 @@ func (fx *fexec) loopVars(li *loopInfo, phiVal func(*ssa.Phi) Val) map[string]Va
 		}
 		dd := domDepth(b)
 		for i, in := range b.Instrs {
+			if phi, isPhi := in.(*ssa.Phi); isPhi {
+				// a variable merged at a dominating block (e.g. the header of an earlier
+				// loop that reassigns it): its value after that merge
+				if phi.Comment != "" && !strings.Contains(phi.Comment, ".") && phi.Comment != "rangeindex" {
+					if _, have := fx.env[phi]; have {
+						c := cand{dd, -1, phi}
+						if o, ok := best[phi.Comment]; !ok || c.depth > o.depth {
+							best[phi.Comment] = c
+						}
+					}
+				}
+				continue
+			}
 			d, ok := in.(*ssa.DebugRef)
 			if !ok {
 				continue
@@ -584,6 +598,12 @@ func (fx *fexec) assignComp(c *Contract, f *ssa.Function, x *SX) (string, string
 	}
 	sc := &SpecCtx{vc: vc, vars: vars, st: &State{heap: map[string]Term{}}, pkg: f.Pkg.Pkg, hp: &heapParams{comps: map[string]string{}}}
 	switch x.K {
+	case "allfield":
+		sty, fi := sc.structField(x)
+		return vc.fieldComp(sty, fi)
+	case "cell":
+		p := sc.eval(x.Args[0])
+		return vc.cellComp(vc.under(p.Ty).(*types.Pointer).Elem())
 	case "ghost":
 		l := sc.ghostLoc(vc.eng.contracts.Ghosts[x.Op])
 		return l.Comp, l.Sort
